@@ -145,17 +145,34 @@ Arguments MYes {A} a.
 Arguments MNo {A}.
 Arguments MFuel {A}.
 
+(* what follows a piece of a pattern: called with the position reached, the rest of the text and the submatches *)
+Definition kont (A : Type) := nat -> bytes -> caps -> mres A.
+
+(* Greedy repetition of [step] (one iteration of the body): one more iteration first, then what
+   follows.  An iteration that consumes nothing is cut (the engine never revisits the same
+   instruction at the same position); every iteration that is not cut shortens the text, so
+   [S (length t)] rounds are enough and [MFuel] is never produced here. *)
+Fixpoint star_loop (A : Type) (step : kont A -> kont A) (k : kont A) (n : nat) (pos : nat) (t : bytes) (cs : caps)
+  {struct n} : mres A :=
+  match n with
+  | O => MFuel
+  | S n' =>
+      match step (fun pos' t' cs' =>
+                    if Nat.ltb (length t') (length t) then star_loop A step k n' pos' t' cs' else MNo)
+                 pos t cs with
+      | MNo => k pos t cs
+      | x => x
+      end
+  end.
+
 Section Match.
   Variable fold : bool.                 (* the pattern started with (?i) *)
   Variable A : Type.
 
-  (* what follows: called with the position reached, the rest of the text and the submatches *)
-  Definition kont := nat -> bytes -> caps -> mres A.
-
   (* Backtracking, continuation passing: alternatives in order, repetition greedy — the first
      success found is the leftmost-first match.  [pos] is the byte offset of [t] in the whole text
      ("^" needs it, and the submatch positions). *)
-  Fixpoint rmatch (r : re) (k : kont) (pos : nat) (t : bytes) (cs : caps) {struct r} : mres A :=
+  Fixpoint rmatch (r : re) (k : kont A) (pos : nat) (t : bytes) (cs : caps) {struct r} : mres A :=
     match r with
     | REmpty => k pos t cs
     | RChar c =>
@@ -177,21 +194,7 @@ Section Match.
         | MNo => k pos t cs
         | x => x
         end
-    | RStar a =>
-        (* one more iteration first, then what follows.  An iteration that consumes nothing is cut
-           (the engine never revisits the same instruction at the same position); every iteration
-           that is not cut shortens the text, so [S (length t)] rounds are enough. *)
-        (fix loop (n : nat) (pos : nat) (t : bytes) (cs : caps) {struct n} : mres A :=
-           match n with
-           | O => MFuel
-           | S n' =>
-               match rmatch a (fun pos' t' cs' =>
-                                 if Nat.ltb (length t') (length t) then loop n' pos' t' cs' else MNo)
-                            pos t cs with
-               | MNo => k pos t cs
-               | x => x
-               end
-           end) (S (length t)) pos t cs
+    | RStar a => star_loop A (rmatch a) k (S (length t)) pos t cs
     | RGroup g a =>
         rmatch a (fun pos' t' cs' => k pos' t' ((g, firstn (pos' - pos) t) :: cs')) pos t cs
     end.
@@ -549,3 +552,25 @@ Fixpoint compile_rules (l : list (bytes * bytes)) : option (list crule) :=
       | _, _ => None
       end
   end.
+
+(* ---- declarative meaning of a pattern (no priorities, no fuel): "from offset [pos] with text [t]
+   ahead, the pattern can match up to offset [pos'] leaving [t']".  The matcher is proved sound for
+   it (Proofs/InflectorRegexp.v: match_at_sound); WHICH of the possible matches Go prefers
+   (leftmost-first) is what the differential check compares on every case. *)
+Inductive matches (fold : bool) : re -> nat -> bytes -> nat -> bytes -> Prop :=
+| M_empty : forall pos t, matches fold REmpty pos t pos t
+| M_char : forall c pos t w t', eat_lit fold c t = Some (w, t') -> matches fold (RChar c) pos t (pos + w) t'
+| M_any : forall pos t w t', eat_any t = Some (w, t') -> matches fold RAny pos t (pos + w) t'
+| M_class : forall neg ms pos t w t', eat_class fold neg ms t = Some (w, t') -> matches fold (RClass neg ms) pos t (pos + w) t'
+| M_bol : forall t, matches fold RBol 0 t 0 t
+| M_eol : forall pos, matches fold REol pos [] pos []
+| M_cat : forall a b p t p1 t1 p2 t2,
+    matches fold a p t p1 t1 -> matches fold b p1 t1 p2 t2 -> matches fold (RCat a b) p t p2 t2
+| M_alt_l : forall a b p t p1 t1, matches fold a p t p1 t1 -> matches fold (RAlt a b) p t p1 t1
+| M_alt_r : forall a b p t p1 t1, matches fold b p t p1 t1 -> matches fold (RAlt a b) p t p1 t1
+| M_star_nil : forall a p t, matches fold (RStar a) p t p t
+| M_star_more : forall a p t p1 t1 p2 t2,
+    matches fold a p t p1 t1 -> matches fold (RStar a) p1 t1 p2 t2 -> matches fold (RStar a) p t p2 t2
+| M_opt_none : forall a p t, matches fold (ROpt a) p t p t
+| M_opt_some : forall a p t p1 t1, matches fold a p t p1 t1 -> matches fold (ROpt a) p t p1 t1
+| M_group : forall g a p t p1 t1, matches fold a p t p1 t1 -> matches fold (RGroup g a) p t p1 t1.
